@@ -203,10 +203,14 @@ func lpExtraBytes(k int) []byte {
 		return []byte{}
 	case 5:
 		return seedInterestMin[:len(seedInterestMin)-1]
-	default:
+	case 6:
 		return lpNameTLV
+	default:
+		return lpExtraMultiBytes(k - lpExtraSingle) // frames holding two top-level TLVs (multitlv.go)
 	}
 }
+
+const lpExtraSingle = 7 // lpExtraKinds[:7] are single-TLV frames; multitlv.go appends the multi-TLV ones
 
 // lpFrameBytes: the bytes of frame i of the full frame space (LpPacket product, then the extras).
 func lpFrameBytes(n int, i int64) []byte {
